@@ -7,8 +7,8 @@ AES-GCM itself is NOT modelled: it enters as an abstract AEAD with the ideal hyp
 
 NOT modelled (tied by the L1 checks of harness/props/c18*.go only): which buffers reach
 `encryptModule` (plaintext leak); the content of the sealed column metadata; the
-writer's re-read of its own sealed pages for bloom filters (writer.go:2195-2215); nonce generation;
-key retrieval; the thrift encoding of the modules. -/
+nonce generation; key retrieval; the thrift encoding of the modules.
+(The call-site table of `makeAAD` with its argument order lives in `AadSites.lean`.) -/
 namespace PqModel.Aad
 
 abbrev Bytes := List UInt8
@@ -203,35 +203,73 @@ deriving DecidableEq, Repr
 
 def Ev.Good (e : Ev) : Prop := e.used = e.slot.used
 
+/-- a sealing (or, in `WSt.reopened`, an opening) the WRITER made: the slot, the `makeAAD` ordinal
+    arguments, and WHICH file identifier was passed as `fileUnique`: `some g` = the identifier of
+    the g-th encryption state of this writer (`newFileEncryptionState` at `newWriter` is 0, every
+    `reset` draws the next one, writer.go:1191, 1230), `none` = the nil `ColumnWriter.fileUnique`
+    of a column writer made by `BeginRowGroup` that was never handed one (writer.go:882-888). -/
+structure WEv where
+  slot : Module
+  used : Used
+  fu : Option Nat
+deriving DecidableEq, Repr
+
+def WEv.ev (e : WEv) : Ev := ⟨e.slot, e.used⟩
+
+/-- the AAD bytes of a writer-side sealing; `fuOf g` = the identifier bytes of the g-th encryption
+    state (random, or the configured `FileIdentifier` every time), nil for `none` -/
+def WEv.aad (pfx : Bytes) (fuOf : Nat → Bytes) (e : WEv) : Bytes :=
+  e.used.aad pfx (match e.fu with | some g => fuOf g | none => [])
+
+/-- sealed with the ordinals of its slot and with the identifier of file generation `g` -/
+def WEv.GoodIn (g : Nat) (e : WEv) : Prop := e.used = e.slot.used ∧ e.fu = some g
+
 /-- static configuration of the writer -/
 structure WCfg where
   ncols : Nat
   dict : Nat → Bool         -- column has a dictionary (`c.dictionary != nil`)
   bloom : Nat → Bool        -- column has a bloom filter (`len(c.filter) > 0`)
   plainFooter : Bool        -- `!EncryptedFooter`: column metadata is sealed separately
+  /-- the column's bloom filter is built at `writeRowGroup` by reading the sealed pages back from
+      the page buffer (`flushFilterPages`, writer.go:2186-2374: a filter that was not pre-sized, or a
+      dictionary that fell back to PLAIN) -/
+  reread : Nat → Bool := fun _ => false
+
+/-- one sealed page in a column's page buffer -/
+structure BufPage where
+  idx : Nat            -- position in the buffer = page position in the chunk once written
+  hdr : Used
+  body : Used
+  fu : Option Nat      -- the `c.fileUnique` the page was sealed with
+deriving DecidableEq, Repr
 
 /-- the column writers of ONE row group writer (the writer's own `currentRowGroup`, or one made by
-    `BeginRowGroup`): `colRg` = `ColumnWriter.rowGroupOrdinal` (assigned together for all columns),
-    `await` = `ColumnWriter.awaitOrdinal`, `numPages`, `buf` = page buffers as above,
-    `rows` = `totalRowCount() > 0` -/
+    `BeginRowGroup`): `colRg` = `ColumnWriter.rowGroupOrdinal`, `colFu` = `ColumnWriter.fileUnique`
+    (both assigned together for all columns), `await` = `ColumnWriter.awaitOrdinal`, `numPages`,
+    `buf` = page buffers as above, `rows` = `totalRowCount() > 0` -/
 structure RgSt where
   colRg : Nat
+  colFu : Option Nat
   await : Bool
   numPages : Nat → Nat
-  buf : Nat → List (Nat × Used × Used)
+  buf : Nat → List BufPage
   rows : Bool
 
 structure WSt where
+  gen : Nat            -- which encryption state `w.encryption` is (0 = the one of newWriter)
   nrg : Nat            -- `len(w.rowGroups)`
   main : RgSt          -- `w.currentRowGroup`
   crg : Nat → RgSt     -- the row groups made by `BeginRowGroup`, by identity
-  log : List Ev
+  log : List WEv
+  /-- every page the writer has read back from its own page buffers (bloom filters): the sealing
+      (as recorded in the buffer) paired with the arguments of the re-open -/
+  reopened : List (WEv × WEv)
 
 inductive WOp where
   /-- rows are buffered in the writer's own row group without any page being produced -/
   | write
   /-- `ColumnWriter.writeDataPage` of an encrypted column of the writer's own row group
-      (writer.go:2494-2521), whoever calls it: a full page buffer during Write,
+      (writer.go:2508-2650), whoever calls it: a full page buffer during Write,
       `ColumnWriter.Flush`, `ColumnWriter.Close` (Writer.Close calls it for every column BEFORE
       writer.close, writer.go:472-477) -/
   | page (col : Nat)
@@ -248,54 +286,79 @@ inductive WOp where
       `writeRowGroup(rg)` (`lastRg`: the columns of `rg` whose `c.Flush()` emits a page). The row
       group can be written to and committed again afterwards. -/
   | commit (id : Nat) (lastCur lastRg : List Nat)
-  /-- `writer.reset` (writer.go:1201-1245) through `Writer.Reset` / `GenericWriter.Reset` -/
+  /-- `writer.reset` (writer.go:1213-1262) through `Writer.Reset` / `GenericWriter.Reset` -/
   | reset
 deriving DecidableEq, Repr
 
-def rgEmpty (colRg : Nat) (await : Bool) : RgSt :=
-  { colRg := colRg, await := await, numPages := fun _ => 0, buf := fun _ => [], rows := false }
+def rgEmpty (colRg : Nat) (colFu : Option Nat) (await : Bool) : RgSt :=
+  { colRg := colRg, colFu := colFu, await := await, numPages := fun _ => 0, buf := fun _ => [], rows := false }
 
-/-- `newWriter` (ordinal 0, writer.go:1186) and `newConcurrentRowGroupWriter` with encryption
-    (`awaitOrdinal = true`, `rowGroupOrdinal` zero value) -/
-def winit : WSt := { nrg := 0, main := rgEmpty 0 false, crg := fun _ => rgEmpty 0 true, log := [] }
+/-- `newWriter` (ordinal 0 and the identifier of the first encryption state, writer.go:1194-1202)
+    and `newConcurrentRowGroupWriter` with encryption (`awaitOrdinal = true`; `rowGroupOrdinal` and
+    `fileUnique` keep their zero values, writer.go:882-888) -/
+def winit : WSt :=
+  { gen := 0, nrg := 0, main := rgEmpty 0 (some 0) false, crg := fun _ => rgEmpty 0 none true, log := [], reopened := [] }
 
-/-- writer.go:2494-2521 + writePageTo: seal header and body with
-    `(c.rowGroupOrdinal, c.columnOrdinal, int16(c.numPages))`, append to the page buffer,
-    `c.numPages++`. `ColumnWriter.Flush` returns at once while `awaitOrdinal` is set. -/
+/-- writer.go:2508-2650 + writePageTo: seal header and body with
+    `(c.fileUnique; c.rowGroupOrdinal, c.columnOrdinal, int16(c.numPages))`, append to the page
+    buffer, `c.numPages++`. `ColumnWriter.Flush` returns at once while `awaitOrdinal` is set. -/
 def upage (u : RgSt) (col : Nat) : RgSt :=
   if u.await then { u with rows := true } else
-  let e : Nat × Used × Used :=
-    ((u.buf col).length, ⟨.dataPageHeader, [u.colRg, col, u.numPages col]⟩, ⟨.dataPage, [u.colRg, col, u.numPages col]⟩)
+  let e : BufPage :=
+    ⟨(u.buf col).length, ⟨.dataPageHeader, [u.colRg, col, u.numPages col]⟩, ⟨.dataPage, [u.colRg, col, u.numPages col]⟩, u.colFu⟩
   { u with
     numPages := fun c => if c = col then u.numPages col + 1 else u.numPages c
     buf := fun c => if c = col then u.buf col ++ [e] else u.buf c
     rows := true }
 
-/-- what one column contributes to the file when the row group with index `rgi` is written:
-    dictionary page (sealed NOW with `c.rowGroupOrdinal`, 2588/2593), the buffered pages (copied
-    verbatim), the bloom filter (2382/2387), and in plaintext-footer mode the column metadata
-    (1728, sealed with the loop indices) -/
-def emitCol (cfg : WCfg) (u : RgSt) (rgi col : Nat) : List Ev :=
+/-- what one column contributes to the file when the row group with index `rgi` is written by the
+    writer whose encryption state is generation `gen`: dictionary page (sealed NOW with
+    `c.fileUnique, c.rowGroupOrdinal`, 2689/2694), the buffered pages (copied verbatim), the bloom
+    filter (2483/2488), and in plaintext-footer mode the column metadata (1775, sealed with
+    `enc.fileUnique` and the loop indices) -/
+def emitCol (cfg : WCfg) (u : RgSt) (rgi gen col : Nat) : List WEv :=
   (if cfg.dict col then
-    [⟨.dictPageHeader rgi col, ⟨.dictPageHeader, [u.colRg, col, 0]⟩⟩,
-     ⟨.dictPage rgi col, ⟨.dictPage, [u.colRg, col, 0]⟩⟩] else []) ++
-  (u.buf col).flatMap (fun p => [⟨.dataPageHeader rgi col p.1, p.2.1⟩, ⟨.dataPage rgi col p.1, p.2.2⟩]) ++
+    [⟨.dictPageHeader rgi col, ⟨.dictPageHeader, [u.colRg, col, 0]⟩, u.colFu⟩,
+     ⟨.dictPage rgi col, ⟨.dictPage, [u.colRg, col, 0]⟩, u.colFu⟩] else []) ++
+  (u.buf col).flatMap (fun p => [⟨.dataPageHeader rgi col p.idx, p.hdr, p.fu⟩, ⟨.dataPage rgi col p.idx, p.body, p.fu⟩]) ++
   (if cfg.bloom col then
-    [⟨.bloomHeader rgi col, ⟨.bloomHeader, [u.colRg, col]⟩⟩,
-     ⟨.bloomBits rgi col, ⟨.bloomBits, [u.colRg, col]⟩⟩] else []) ++
-  (if cfg.plainFooter then [⟨.columnMeta rgi col, ⟨.columnMeta, [rgi, col]⟩⟩] else [])
+    [⟨.bloomHeader rgi col, ⟨.bloomHeader, [u.colRg, col]⟩, u.colFu⟩,
+     ⟨.bloomBits rgi col, ⟨.bloomBits, [u.colRg, col]⟩, u.colFu⟩] else []) ++
+  (if cfg.plainFooter then [⟨.columnMeta rgi col, ⟨.columnMeta, [rgi, col]⟩, some gen⟩] else [])
 
-/-- the body of `writeRowGroup` (writer.go:1519-1790) for the row group writer `u` that gets index
-    `rgi`: assign the ordinal, clear `awaitOrdinal`, flush the last pages, emit -/
-def rgWrite (cfg : WCfg) (u : RgSt) (rgi : Nat) (last : List Nat) : List Ev :=
-  let u := last.foldl upage { u with colRg := rgi, await := false }
-  (List.range cfg.ncols).flatMap (emitCol cfg u rgi)
+/-- `flushFilterPages` of one column (writer.go:2273-2296): `for pageOrd := range int16(c.numPages)`
+    the next header and body envelope of the page buffer are opened with
+    `(c.fileUnique; c.rowGroupOrdinal, c.columnOrdinal, pageOrd)`. First component: the sealing the
+    buffer holds at that position; second: the arguments of the open. -/
+def rereadCol (cfg : WCfg) (u : RgSt) (rgi col : Nat) : List (WEv × WEv) :=
+  if cfg.reread col then
+    (((u.buf col).take (u.numPages col)).zipIdx).flatMap (fun pi =>
+      [((⟨.dataPageHeader rgi col pi.1.idx, pi.1.hdr, pi.1.fu⟩ : WEv),
+        (⟨.dataPageHeader rgi col pi.2, ⟨.dataPageHeader, [u.colRg, col, pi.2]⟩, u.colFu⟩ : WEv)),
+       (⟨.dataPage rgi col pi.1.idx, pi.1.body, pi.1.fu⟩, ⟨.dataPage rgi col pi.2, ⟨.dataPage, [u.colRg, col, pi.2]⟩, u.colFu⟩)])
+  else []
 
-/-- `writeRowGroup(w.currentRowGroup)`: an empty row group is skipped (1494-1497); the deferred
-    block resets the row group writer and gives it the next ordinal (1508-1530) -/
+/-- the row group writer `u` as `writeRowGroup` (writer.go:1519-1577) prepares it for index `rgi`:
+    assign ordinal and file identifier, clear `awaitOrdinal`, flush the last pages -/
+def rgPrep (u : RgSt) (rgi gen : Nat) (last : List Nat) : RgSt :=
+  last.foldl upage { u with colRg := rgi, colFu := some gen, await := false }
+
+/-- the body of `writeRowGroup` (writer.go:1519-1837) for the row group writer `u` that gets index
+    `rgi`: prepare, then emit -/
+def rgWrite (cfg : WCfg) (u : RgSt) (rgi gen : Nat) (last : List Nat) : List WEv :=
+  (List.range cfg.ncols).flatMap (emitCol cfg (rgPrep u rgi gen last) rgi gen)
+
+/-- … and the pages it reads back for the bloom filters on the way (1574) -/
+def rgReread (cfg : WCfg) (u : RgSt) (rgi gen : Nat) (last : List Nat) : List (WEv × WEv) :=
+  (List.range cfg.ncols).flatMap (rereadCol cfg (rgPrep u rgi gen last) rgi)
+
+/-- `writeRowGroup(w.currentRowGroup)`: an empty row group is skipped (1523-1526); the deferred
+    block resets the row group writer and gives it the next ordinal (1536-1553) -/
 def wflush (cfg : WCfg) (s : WSt) (last : List Nat) : WSt :=
   if !s.main.rows then s else
-  { s with nrg := s.nrg + 1, main := rgEmpty (s.nrg + 1) false, log := s.log ++ rgWrite cfg s.main s.nrg last }
+  { s with nrg := s.nrg + 1, main := rgEmpty (s.nrg + 1) (some s.gen) false,
+           log := s.log ++ rgWrite cfg s.main s.nrg s.gen last,
+           reopened := s.reopened ++ rgReread cfg s.main s.nrg s.gen last }
 
 /-- `Commit` of row group `id`. `fixed = true` is the code as it is: the deferred block also
     gives the writer's own (flushed, empty) row group the next ordinal; `false` is the code before
@@ -306,83 +369,102 @@ def wcommit (fixed : Bool) (cfg : WCfg) (s : WSt) (id : Nat) (lastCur lastRg : L
   if !u.rows then s else
   { s with
     nrg := s.nrg + 1
-    crg := fun i => if i = id then rgEmpty (s.nrg + 1) true else s.crg i
+    crg := fun i => if i = id then rgEmpty (s.nrg + 1) (some s.gen) true else s.crg i
     main := if fixed then { s.main with colRg := s.nrg + 1 } else s.main
-    log := s.log ++ rgWrite cfg u s.nrg lastRg }
+    log := s.log ++ rgWrite cfg u s.nrg s.gen lastRg
+    reopened := s.reopened ++ rgReread cfg u s.nrg s.gen lastRg }
 
 /-- AS IT WAS before the repair of reset (kept as a regression fact): row groups, indexes and
-    buffers were cleared; NOTHING touched `ColumnWriter.rowGroupOrdinal` -/
+    buffers were cleared; NOTHING touched `ColumnWriter.rowGroupOrdinal`, and the encryption state
+    (with its file identifier) was kept -/
 def wresetBefore (s : WSt) : WSt :=
-  { s with nrg := 0, main := rgEmpty s.main.colRg false, log := [] }
+  { s with nrg := 0, main := rgEmpty s.main.colRg s.main.colFu false, log := [], reopened := [] }
 
-/-- writer.go:1201-1245 (repaired): row groups, indexes and buffers are cleared and every column
-    writer of the writer's own row group gets `rowGroupOrdinal = 0` (and the file a new identifier:
-    a parameter of the AAD, not of this state machine). Row groups made by `BeginRowGroup` are
-    not touched: they wait for their ordinal anyway. -/
+/-- writer.go:1213-1262 (repaired): row groups, indexes and buffers are cleared, a new encryption
+    state is drawn (1230-1232: a new random identifier unless `FileIdentifier` is configured) and
+    every column writer of the writer's own row group gets `rowGroupOrdinal = 0` and the NEW
+    identifier (1233-1236). Row groups made by `BeginRowGroup` are not touched: they wait for
+    ordinal and identifier anyway. -/
 def wreset (s : WSt) : WSt :=
-  { s with nrg := 0, main := rgEmpty 0 false, log := [] }
+  { s with gen := s.gen + 1, nrg := 0, main := rgEmpty 0 (some (s.gen + 1)) false, log := [], reopened := [] }
 
-def wstepG (fixedCommit fixedReset : Bool) (cfg : WCfg) (s : WSt) : WOp → WSt
+/-- NOT the code: `reset` without line 1235 (`c.fileUnique = w.encryption.fileUnique`), which looks
+    redundant next to the same assignment in `writeRowGroup` (1559). Kept to show that the theorems
+    depend on it (`reset_must_hand_over_identifier`). -/
+def wresetNoHandover (s : WSt) : WSt :=
+  { s with gen := s.gen + 1, nrg := 0, main := rgEmpty 0 s.main.colFu false, log := [], reopened := [] }
+
+def wstepG (fixedCommit : Bool) (resetF : WSt → WSt) (cfg : WCfg) (s : WSt) : WOp → WSt
   | .write => { s with main := { s.main with rows := true } }
   | .page col => { s with main := upage s.main col }
   | .flush last => wflush cfg s last
   | .cwrite id => { s with crg := fun i => if i = id then { s.crg id with rows := true } else s.crg i }
   | .cpage id col => { s with crg := fun i => if i = id then upage (s.crg id) col else s.crg i }
   | .commit id a b => wcommit fixedCommit cfg s id a b
-  | .reset => if fixedReset then wreset s else wresetBefore s
+  | .reset => resetF s
 
 /-- the code as it is -/
-def wstep (cfg : WCfg) (s : WSt) (o : WOp) : WSt := wstepG true true cfg s o
+def wstep (cfg : WCfg) (s : WSt) (o : WOp) : WSt := wstepG true wreset cfg s o
 
 def wrun (cfg : WCfg) (ops : List WOp) : WSt := ops.foldl (wstep cfg) winit
 
 /-- the code before the repair of `writer.reset` -/
-def wrunBefore (cfg : WCfg) (ops : List WOp) : WSt := ops.foldl (wstepG true false cfg) winit
+def wrunBefore (cfg : WCfg) (ops : List WOp) : WSt := ops.foldl (wstepG true wresetBefore cfg) winit
 
 /-- the code before the writer's own row group was given the next ordinal after a Commit -/
-def wrunBeforeCommitFix (cfg : WCfg) (ops : List WOp) : WSt := ops.foldl (wstepG false true cfg) winit
+def wrunBeforeCommitFix (cfg : WCfg) (ops : List WOp) : WSt := ops.foldl (wstepG false wreset cfg) winit
 
-/-- writer.close (writer.go:1235-1252): flush, then the page indexes sealed with the loop
-    indices `(i, j)` (1343, 1369), then the footer (1423 / 1464) -/
-def wclose (cfg : WCfg) (s : WSt) : List Ev :=
+/-- NOT the code: see `wresetNoHandover` -/
+def wrunNoHandover (cfg : WCfg) (ops : List WOp) : WSt := ops.foldl (wstepG true wresetNoHandover cfg) winit
+
+/-- writer.close (writer.go:1264-1281) and writeFileFooter: flush, then the page indexes sealed with
+    `w.encryption.fileUnique` and the loop indices `(i, j)` (1372, 1398), then the footer (1452 / 1493) -/
+def wclose (cfg : WCfg) (s : WSt) : List WEv :=
   let s := wflush cfg s []
   s.log ++
-  (List.range s.nrg).flatMap (fun i => (List.range cfg.ncols).map (fun j => (⟨.columnIndex i j, ⟨.columnIndex, [i, j]⟩⟩ : Ev))) ++
-  (List.range s.nrg).flatMap (fun i => (List.range cfg.ncols).map (fun j => (⟨.offsetIndex i j, ⟨.offsetIndex, [i, j]⟩⟩ : Ev))) ++
-  [⟨.footer, ⟨.footer, []⟩⟩]
+  (List.range s.nrg).flatMap (fun i => (List.range cfg.ncols).map (fun j => (⟨.columnIndex i j, ⟨.columnIndex, [i, j]⟩, some s.gen⟩ : WEv))) ++
+  (List.range s.nrg).flatMap (fun i => (List.range cfg.ncols).map (fun j => (⟨.offsetIndex i j, ⟨.offsetIndex, [i, j]⟩, some s.gen⟩ : WEv))) ++
+  [⟨.footer, ⟨.footer, []⟩, some s.gen⟩]
 
-/-- the pages a row group writer holds were sealed for row group `rgi` and for their position -/
-structure UInv (u : RgSt) (rgi : Nat) : Prop where
+/-- the pages a row group writer holds were sealed for row group `rgi`, for their position, and
+    with the identifier of file generation `g` -/
+structure UInv (u : RgSt) (rgi g : Nat) : Prop where
   np : ∀ c, u.numPages c = (u.buf c).length
-  buf : ∀ c p, p ∈ u.buf c → p.2.1 = ⟨.dataPageHeader, [rgi, c, p.1]⟩ ∧ p.2.2 = ⟨.dataPage, [rgi, c, p.1]⟩
+  buf : ∀ (c : Nat) (p : BufPage), p ∈ u.buf c →
+    p.hdr = ⟨.dataPageHeader, [rgi, c, p.idx]⟩ ∧ p.body = ⟨.dataPage, [rgi, c, p.idx]⟩ ∧ p.fu = some g
+  pos : ∀ (c i : Nat) (p : BufPage), (u.buf c)[i]? = some p → p.idx = i
 
 /-- invariant of every history -/
 structure WInv (s : WSt) : Prop where
   rg : s.main.colRg = s.nrg
+  fu : s.main.colFu = some s.gen
   na : s.main.await = false
-  main : UInv s.main s.nrg
+  main : UInv s.main s.nrg s.gen
   nr : s.main.rows = false → ∀ c, s.main.buf c = []
   crg : ∀ i, (s.crg i).await = true ∧ (∀ c, (s.crg i).buf c = []) ∧ (∀ c, (s.crg i).numPages c = 0)
-  log : ∀ e ∈ s.log, e.Good
+  log : ∀ e ∈ s.log, e.GoodIn s.gen
+  re : ∀ ab ∈ s.reopened, ab.1 = ab.2
 
-theorem uinv_empty (colRg : Nat) (a : Bool) (rgi : Nat) : UInv (rgEmpty colRg a) rgi :=
-  ⟨fun _ => rfl, fun _ _ h => by simp [rgEmpty] at h⟩
+theorem uinv_empty (colRg : Nat) (f : Option Nat) (a : Bool) (rgi g : Nat) : UInv (rgEmpty colRg f a) rgi g :=
+  ⟨fun _ => rfl, fun _ _ h => by simp [rgEmpty] at h, fun _ _ _ h => by simp [rgEmpty] at h⟩
 
 theorem winv_init : WInv winit :=
-  ⟨rfl, rfl, uinv_empty _ _ _, fun _ _ => rfl, fun _ => ⟨rfl, fun _ => rfl, fun _ => rfl⟩, fun _ h => by simp [winit] at h⟩
+  ⟨rfl, rfl, rfl, uinv_empty _ _ _ _ _, fun _ _ => rfl, fun _ => ⟨rfl, fun _ => rfl, fun _ => rfl⟩,
+   fun _ h => by simp [winit] at h, fun _ h => by simp [winit] at h⟩
 
 theorem upage_await {u : RgSt} (h : u.await = true) (col : Nat) :
     (upage u col).await = true ∧ (upage u col).buf = u.buf ∧ (upage u col).numPages = u.numPages := by
   simp [upage, h]
 
-theorem uinv_page {u : RgSt} {rgi : Nat} (hr : u.colRg = rgi) (ha : u.await = false) (h : UInv u rgi) (col : Nat) :
-    (upage u col).colRg = rgi ∧ (upage u col).await = false ∧ UInv (upage u col) rgi := by
+theorem uinv_page {u : RgSt} {rgi g : Nat} (hr : u.colRg = rgi) (hf : u.colFu = some g) (ha : u.await = false)
+    (h : UInv u rgi g) (col : Nat) :
+    (upage u col).colRg = rgi ∧ (upage u col).colFu = some g ∧ (upage u col).await = false ∧ UInv (upage u col) rgi g := by
   have e : upage u col = { u with
       numPages := fun c => if c = col then u.numPages col + 1 else u.numPages c
-      buf := fun c => if c = col then u.buf col ++ [((u.buf col).length, ⟨.dataPageHeader, [u.colRg, col, u.numPages col]⟩, ⟨.dataPage, [u.colRg, col, u.numPages col]⟩)] else u.buf c
+      buf := fun c => if c = col then u.buf col ++ [(⟨(u.buf col).length, ⟨.dataPageHeader, [u.colRg, col, u.numPages col]⟩, ⟨.dataPage, [u.colRg, col, u.numPages col]⟩, u.colFu⟩ : BufPage)] else u.buf c
       rows := true } := by simp [upage, ha]
   rw [e]
-  refine ⟨hr, ha, ?_, ?_⟩
+  refine ⟨hr, hf, ha, ?_, ?_, ?_⟩
   · intro c
     simp only
     split
@@ -396,58 +478,114 @@ theorem uinv_page {u : RgSt} {rgi : Nat} (hr : u.colRg = rgi) (ha : u.await = fa
       · exact h.buf _ _ hp
       · simp only [List.mem_singleton] at hp
         subst hp
-        simp [h.np]
+        simp [h.np, hf]
     · exact h.buf _ _ hp
+  · intro c i p hp
+    simp only at hp
+    split at hp
+    · subst_vars
+      by_cases hi : i < (u.buf c).length
+      · rw [List.getElem?_append_left hi] at hp
+        exact h.pos _ _ _ hp
+      · rw [List.getElem?_append_right (by omega)] at hp
+        by_cases hi' : i - (u.buf c).length = 0
+        · rw [hi'] at hp
+          simp only [List.getElem?_cons_zero, Option.some.injEq] at hp
+          subst hp
+          simp only
+          omega
+        · obtain ⟨k, hk⟩ : ∃ k, i - (u.buf c).length = k + 1 := ⟨i - (u.buf c).length - 1, by omega⟩
+          rw [hk] at hp
+          simp at hp
+    · exact h.pos _ _ _ hp
 
-theorem uinv_foldl_page {u : RgSt} {rgi : Nat} (hr : u.colRg = rgi) (ha : u.await = false) (h : UInv u rgi) (l : List Nat) :
-    (l.foldl upage u).colRg = rgi ∧ UInv (l.foldl upage u) rgi := by
+theorem uinv_foldl_page {u : RgSt} {rgi g : Nat} (hr : u.colRg = rgi) (hf : u.colFu = some g) (ha : u.await = false)
+    (h : UInv u rgi g) (l : List Nat) :
+    (l.foldl upage u).colRg = rgi ∧ (l.foldl upage u).colFu = some g ∧ UInv (l.foldl upage u) rgi g := by
   induction l generalizing u with
-  | nil => exact ⟨hr, h⟩
+  | nil => exact ⟨hr, hf, h⟩
   | cons a l ih =>
-    obtain ⟨h1, h2, h3⟩ := uinv_page hr ha h a
-    exact ih h1 h2 h3
+    obtain ⟨h1, h2, h3, h4⟩ := uinv_page hr hf ha h a
+    exact ih h1 h2 h3 h4
 
-theorem emitCol_good {cfg : WCfg} {u : RgSt} {rgi : Nat} (hr : u.colRg = rgi) (h : UInv u rgi) (col : Nat) :
-    ∀ e ∈ emitCol cfg u rgi col, e.Good := by
+theorem rgPrep_inv {u : RgSt} {rgi g : Nat} (h : UInv u rgi g) (last : List Nat) :
+    (rgPrep u rgi g last).colRg = rgi ∧ (rgPrep u rgi g last).colFu = some g ∧ UInv (rgPrep u rgi g last) rgi g :=
+  uinv_foldl_page (u := { u with colRg := rgi, colFu := some g, await := false }) rfl rfl rfl ⟨h.np, h.buf, h.pos⟩ last
+
+theorem emitCol_good {cfg : WCfg} {u : RgSt} {rgi g : Nat} (hr : u.colRg = rgi) (hf : u.colFu = some g)
+    (h : UInv u rgi g) (col : Nat) :
+    ∀ e ∈ emitCol cfg u rgi g col, e.GoodIn g := by
   intro e he
   simp only [emitCol, List.mem_append, List.mem_flatMap] at he
   rcases he with ((he | ⟨p, hp, he⟩) | he) | he
   · split at he
     · simp only [List.mem_cons, List.not_mem_nil, or_false] at he
-      rcases he with rfl | rfl <;> simp [Ev.Good, Module.used, Module.type, Module.ords, hr]
+      rcases he with rfl | rfl <;> simp [WEv.GoodIn, Module.used, Module.type, Module.ords, hr, hf]
     · simp at he
   · have := h.buf col p hp
     simp only [List.mem_cons, List.not_mem_nil, or_false] at he
-    rcases he with rfl | rfl <;> simp [Ev.Good, Module.used, Module.type, Module.ords, this]
+    rcases he with rfl | rfl <;> simp [WEv.GoodIn, Module.used, Module.type, Module.ords, this]
   · split at he
     · simp only [List.mem_cons, List.not_mem_nil, or_false] at he
-      rcases he with rfl | rfl <;> simp [Ev.Good, Module.used, Module.type, Module.ords, hr]
+      rcases he with rfl | rfl <;> simp [WEv.GoodIn, Module.used, Module.type, Module.ords, hr, hf]
     · simp at he
   · split at he
     · simp only [List.mem_cons, List.not_mem_nil, or_false] at he
-      subst he; simp [Ev.Good, Module.used, Module.type, Module.ords]
+      subst he; simp [WEv.GoodIn, Module.used, Module.type, Module.ords]
     · simp at he
 
-/-- whatever ordinal a row group writer held before, if its buffers hold pages sealed for `rgi`
-    (in particular none), everything `writeRowGroup` emits for index `rgi` is sealed for its slot -/
-theorem rgWrite_good {cfg : WCfg} {u : RgSt} {rgi : Nat} (h : UInv u rgi) (last : List Nat) :
-    ∀ e ∈ rgWrite cfg u rgi last, e.Good := by
+/-- whatever ordinal and identifier a row group writer held before, if its buffers hold pages
+    sealed for `(rgi, g)` (in particular none), everything `writeRowGroup` emits for index `rgi`
+    in file generation `g` is sealed for its slot and for that file -/
+theorem rgWrite_good {cfg : WCfg} {u : RgSt} {rgi g : Nat} (h : UInv u rgi g) (last : List Nat) :
+    ∀ e ∈ rgWrite cfg u rgi g last, e.GoodIn g := by
   intro e he
   simp only [rgWrite, List.mem_flatMap] at he
   obtain ⟨c, _, he⟩ := he
-  have h0 : UInv { u with colRg := rgi, await := false } rgi := ⟨h.np, h.buf⟩
-  obtain ⟨h1, h2⟩ := uinv_foldl_page (u := { u with colRg := rgi, await := false }) rfl rfl h0 last
-  exact emitCol_good h1 h2 c e he
+  obtain ⟨h1, h2, h3⟩ := rgPrep_inv h last
+  exact emitCol_good h1 h2 h3 c e he
+
+theorem rereadCol_same {cfg : WCfg} {u : RgSt} {rgi g : Nat} (hr : u.colRg = rgi) (hf : u.colFu = some g)
+    (h : UInv u rgi g) (col : Nat) : ∀ ab ∈ rereadCol cfg u rgi col, ab.1 = ab.2 := by
+  intro ab hab
+  unfold rereadCol at hab
+  split at hab
+  · simp only [List.mem_flatMap] at hab
+    obtain ⟨⟨p, i⟩, hpi, hab⟩ := hab
+    rw [List.mem_zipIdx_iff_getElem?] at hpi
+    simp only at hpi
+    have hp : (u.buf col)[i]? = some p := by
+      rw [List.getElem?_take] at hpi
+      split at hpi
+      · exact hpi
+      · cases hpi
+    have hi := h.pos col i p hp
+    have hb := h.buf col p (List.mem_of_getElem? hp)
+    simp only [List.mem_cons, List.not_mem_nil, or_false] at hab
+    rcases hab with rfl | rfl <;> simp [hb, hi, hr, hf]
+  · cases hab
+
+theorem rgReread_same {cfg : WCfg} {u : RgSt} {rgi g : Nat} (h : UInv u rgi g) (last : List Nat) :
+    ∀ ab ∈ rgReread cfg u rgi g last, ab.1 = ab.2 := by
+  intro ab hab
+  simp only [rgReread, List.mem_flatMap] at hab
+  obtain ⟨c, _, hab⟩ := hab
+  obtain ⟨h1, h2, h3⟩ := rgPrep_inv h last
+  exact rereadCol_same h1 h2 h3 c ab hab
 
 theorem winv_flush {cfg : WCfg} {s : WSt} (h : WInv s) (last : List Nat) : WInv (wflush cfg s last) := by
   unfold wflush
   split
   · exact h
-  · refine ⟨rfl, rfl, uinv_empty _ _ _, fun _ _ => rfl, h.crg, ?_⟩
-    intro e he
-    rcases List.mem_append.1 he with he | he
-    · exact h.log e he
-    · exact rgWrite_good h.main last e he
+  · refine ⟨rfl, rfl, rfl, uinv_empty _ _ _ _ _, fun _ _ => rfl, h.crg, ?_, ?_⟩
+    · intro e he
+      rcases List.mem_append.1 he with he | he
+      · exact h.log e he
+      · exact rgWrite_good h.main last e he
+    · intro ab hab
+      rcases List.mem_append.1 hab with hab | hab
+      · exact h.re ab hab
+      · exact rgReread_same h.main last ab hab
 
 theorem wflush_main_empty {cfg : WCfg} {s : WSt} (h : WInv s) (last : List Nat) (c : Nat) :
     (wflush cfg s last).main.buf c = [] := by
@@ -457,6 +595,15 @@ theorem wflush_main_empty {cfg : WCfg} {s : WSt} (h : WInv s) (last : List Nat) 
     exact h.nr (by simpa using hr) c
   · rfl
 
+theorem wflush_gen {cfg : WCfg} (s : WSt) (last : List Nat) : (wflush cfg s last).gen = s.gen := by
+  unfold wflush
+  split <;> rfl
+
+theorem wcommit_gen {cfg : WCfg} (f : Bool) (s : WSt) (id : Nat) (a b : List Nat) : (wcommit f cfg s id a b).gen = s.gen := by
+  unfold wcommit
+  simp only
+  split <;> simp [wflush_gen]
+
 theorem winv_commit {cfg : WCfg} {s : WSt} (h : WInv s) (id : Nat) (a b : List Nat) : WInv (wcommit true cfg s id a b) := by
   unfold wcommit
   have h1 := winv_flush (cfg := cfg) h a
@@ -464,11 +611,19 @@ theorem winv_commit {cfg : WCfg} {s : WSt} (h : WInv s) (id : Nat) (a b : List N
   simp only
   split
   · exact h1
-  · refine ⟨rfl, h1.na, ⟨h1.main.np, ?_⟩, fun _ c => hempty c, ?_, ?_⟩
+  · have hc := h1.crg id
+    have hu : UInv ((wflush cfg s a).crg id) (wflush cfg s a).nrg (wflush cfg s a).gen :=
+      ⟨fun c => by rw [hc.2.2 c, hc.2.1 c]; rfl, fun c p hp => by (rw [hc.2.1 c] at hp; cases hp),
+       fun c i p hp => by (rw [hc.2.1 c] at hp; simp at hp)⟩
+    refine ⟨rfl, h1.fu, h1.na, ⟨h1.main.np, ?_, ?_⟩, fun _ c => hempty c, ?_, ?_, ?_⟩
     · intro c p hp
       simp only [if_true] at hp
       rw [hempty c] at hp
       cases hp
+    · intro c i p hp
+      simp only [if_true] at hp
+      rw [hempty c] at hp
+      simp at hp
     · intro i
       simp only
       split
@@ -477,35 +632,36 @@ theorem winv_commit {cfg : WCfg} {s : WSt} (h : WInv s) (id : Nat) (a b : List N
     · intro e he
       rcases List.mem_append.1 he with he | he
       · exact h1.log e he
-      · have hc := h1.crg id
-        refine rgWrite_good ⟨fun c => by rw [hc.2.2 c, hc.2.1 c]; rfl, fun c p hp => ?_⟩ b e he
-        rw [hc.2.1 c] at hp
-        cases hp
+      · exact rgWrite_good hu b e he
+    · intro ab hab
+      rcases List.mem_append.1 hab with hab | hab
+      · exact h1.re ab hab
+      · exact rgReread_same hu b ab hab
 
 theorem winv_reset {s : WSt} (h : WInv s) : WInv (wreset s) :=
-  ⟨rfl, rfl, uinv_empty _ _ _, fun _ _ => rfl, h.crg, fun _ he => by simp [wreset] at he⟩
+  ⟨rfl, rfl, rfl, uinv_empty _ _ _ _ _, fun _ _ => rfl, h.crg, fun _ he => by simp [wreset] at he, fun _ he => by simp [wreset] at he⟩
 
 theorem winv_step {cfg : WCfg} {s : WSt} (h : WInv s) (o : WOp) : WInv (wstep cfg s o) := by
   cases o with
   | write =>
     simp only [wstep, wstepG]
-    exact ⟨h.rg, h.na, ⟨h.main.np, h.main.buf⟩, fun hr => by simp at hr, h.crg, h.log⟩
+    exact ⟨h.rg, h.fu, h.na, ⟨h.main.np, h.main.buf, h.main.pos⟩, fun hr => by simp at hr, h.crg, h.log, h.re⟩
   | page col =>
     simp only [wstep, wstepG]
-    obtain ⟨h1, h2, h3⟩ := uinv_page h.rg h.na h.main col
-    refine ⟨h1, h2, h3, fun hr => ?_, h.crg, h.log⟩
+    obtain ⟨h1, h2, h3, h4⟩ := uinv_page h.rg h.fu h.na h.main col
+    refine ⟨h1, h2, h3, h4, fun hr => ?_, h.crg, h.log, h.re⟩
     simp [upage, h.na] at hr
   | flush last => exact winv_flush h last
   | cwrite id =>
     simp only [wstep, wstepG]
-    refine ⟨h.rg, h.na, h.main, h.nr, fun i => ?_, h.log⟩
+    refine ⟨h.rg, h.fu, h.na, h.main, h.nr, fun i => ?_, h.log, h.re⟩
     simp only
     split
     · exact h.crg id
     · exact h.crg i
   | cpage id col =>
     simp only [wstep, wstepG]
-    refine ⟨h.rg, h.na, h.main, h.nr, fun i => ?_, h.log⟩
+    refine ⟨h.rg, h.fu, h.na, h.main, h.nr, fun i => ?_, h.log, h.re⟩
     simp only
     split
     · obtain ⟨ha, hb, hn⟩ := h.crg id
@@ -522,12 +678,13 @@ theorem winv_run {cfg : WCfg} (ops : List WOp) : WInv (wrun cfg ops) := by
   | nil => exact fun s h => h
   | cons o ops ih => exact fun s h => ih _ (winv_step h o)
 
-theorem wclose_good {cfg : WCfg} {s : WSt} (h : WInv s) : ∀ e ∈ wclose cfg s, e.Good := by
+theorem wclose_good {cfg : WCfg} {s : WSt} (h : WInv s) : ∀ e ∈ wclose cfg s, e.GoodIn s.gen := by
   intro e he
+  have hg := wflush_gen (cfg := cfg) s []
   simp only [wclose, List.mem_append, List.mem_flatMap, List.mem_map, List.mem_singleton] at he
   rcases he with ((he | ⟨i, _, j, _, rfl⟩) | ⟨i, _, j, _, rfl⟩) | rfl
-  · exact (winv_flush h []).log e he
-  all_goals simp [Ev.Good, Module.used, Module.type, Module.ords]
+  · rw [← hg]; exact (winv_flush h []).log e he
+  all_goals simp [WEv.GoodIn, Module.used, Module.type, Module.ords, hg]
 
 /-! ## 4. Reader-side ordinal tracking (MIRROR file.go FilePages)
 
